@@ -12,6 +12,8 @@ structure St where
   `none` when the C code refuses the probability; filled by `ptab` -/
   ptab : List (String × Option Int)
   text : List (List String)
+  /-- `logmath_get_zero` of the harness's `logmath_t` (reported by the harness at `new`) -/
+  zero : Int := -536870912
 
 def hexStr (s : String) : String := toHex s.toUTF8.toList
 
@@ -39,7 +41,8 @@ def codec (s : St) : Codec :=
     printP := fun lp => s!"P{lp}"
     parseP := fun tok => match s.ptab.find? (·.1 == tok) with
       | some (_, r) => r
-      | none => none }
+      | none => none
+    zero := s.zero }
 
 def sortStr (l : List String) : List String := (l.toArray.qsort (· < ·)).toList
 def sortNat (l : List Nat) : List Nat := (l.toArray.qsort (· < ·)).toList
@@ -137,10 +140,10 @@ def bestDiff (g1 g2 : Fsg) (sigma : List Nat) (len : Nat) :
 
 def step (s : St) (ws : List String) : St × String :=
   match ws with
-  | ["new", n, st, fi, name] =>
-    match parseNat n, parseNat st, parseNat fi, (if name = "-" then some "" else unhexStr name) with
-    | some n, some st, some fi, some name => ({ s with g := Fsg.init name n st fi }, "ok")
-    | _, _, _, _ => (s, "bad-op")
+  | ["new", n, st, fi, name, zero] =>
+    match parseNat n, parseNat st, parseNat fi, (if name = "-" then some "" else unhexStr name), parseInt zero with
+    | some n, some st, some fi, some name, some z => ({ s with g := Fsg.init name n st fi z, zero := z }, s!"ok {z}")
+    | _, _, _, _, _ => (s, "bad-op")
   | ["word", w] =>
     match unhexStr w with
     | some w => let r := wordAdd s.g w; ({ s with g := r.1 }, s!"v {r.2}")
